@@ -71,6 +71,8 @@ __all__ = [
     "sm_from_introspection",
     "sm_diff",
     "sm_element",
+    "coerce_unwrapped",
+    "wrap_canon",
     "text_change_facet",
     "default_detail",
     "sm_violations",
@@ -566,7 +568,34 @@ def reorder_keys(v, how):
     return v
 
 
-def sm_to_code(sm, with_resolvers=True, key_order=None):
+def coerce_unwrapped(env, t, lit):
+    """Like coerce_literal, but a single value standing for a list is NOT wrapped (what a programmer may pass as
+    `default_value` of a list-typed argument: list input coercion accepts a single item)."""
+    if t[0] == "nn":
+        return coerce_unwrapped(env, t[1], lit)
+    if lit[0] == "null":
+        return None
+    if t[0] == "l":
+        if lit[0] != "list":
+            return coerce_unwrapped(env, t[1], lit)
+        return [coerce_unwrapped(env, t[1], x) for x in lit[1]]
+    return coerce_literal(env, t, lit)
+
+
+def wrap_canon(canon, t):
+    """canonical value -> the same with single values wrapped into lists as the type demands."""
+    if t[0] == "nn":
+        return wrap_canon(canon, t[1])
+    if canon is None:
+        return None
+    if t[0] == "l":
+        if canon[0] != "l":
+            return ["l", [wrap_canon(canon, t[1])]]
+        return ["l", [wrap_canon(x, t[1]) for x in canon[1]]]
+    return canon
+
+
+def sm_to_code(sm, with_resolvers=True, key_order=None, unwrapped_singles=False):
     """Build the schema through the constructors of py_gql.schema (no SDL involved).
 
     key_order: None (input-object defaults keyed in field declaration order) | "reversed" | "rotated"."""
@@ -605,7 +634,7 @@ def sm_to_code(sm, with_resolvers=True, key_order=None):
     def kwargs_default(iv):
         kw = {}
         if iv["default"] is not None:
-            kw["default_value"] = coerce_literal(env, iv["type"], iv["default"])
+            kw["default_value"] = (coerce_unwrapped if unwrapped_singles else coerce_literal)(env, iv["type"], iv["default"])
             if key_order:
                 kw["default_value"] = reorder_keys(kw["default_value"], key_order)
         if iv.get("python_name"):
